@@ -67,6 +67,9 @@ def compare(d, tree, usage, counters, viol, fused):
             sig = "under_reports_below_value_granular_liveness"
         elif got > U + tol:
             sig = "over_reports_above_whole_tiles"
+            extra = _shared_prefix_holder_bits(d, tree, mem)
+            if extra and any(abs(got - exp - k * e) <= tol + 1e-3 for e in extra for k in (1, 2)):
+                sig = "shared_prefix_holder_counted_once_per_einsum"
         elif abs(got - sim["tile_blocked"].get(mem, 0)) <= tol:
             sig = "adjacent_holder_blocks_lowering"
         else:
@@ -75,6 +78,49 @@ def compare(d, tree, usage, counters, viol, fused):
                                              "with_lowering_blocked_by_any_storage_node": sim["tile_blocked"].get(mem, 0),
                                              "ranks": d["workload"]["ranks"], "bits": d["workload"]["bits"], "tree": tree}})
     return any_cmp
+
+
+def _shared_prefix_holder_bits(d, tree, mem):
+    """Tile sizes (bits) of non-backing holders in `mem` that sit ABOVE a sequential split and whose tensor is used by
+    two or more Einsums below the split (attribution of an over-report: the model counts such a holder per Einsum)."""
+    w = d["workload"]
+    uses = {e["name"]: {t["name"]: t["proj"] for t in e["tensors"]} for e in w["einsums"]}
+    bits = {m["name"]: (m.get("bits_per_value") or {}) for m in d["arch"]["mems"]}
+    out = []
+
+    def einsums(nodes):
+        r = []
+        for n in nodes:
+            if n["t"] == "C":
+                r.append(n["einsum"])
+            elif n["t"] == "Q":
+                for b in n["branches"]:
+                    r += einsums(b)
+        return r
+
+    def walk(nodes, tile):
+        tile = dict(tile)
+        seen_backing = set()
+        for i, n in enumerate(nodes):
+            if n["t"] in ("T", "P") and isinstance(n["tile"], int):
+                tile[n["rv"]] = n["tile"]
+            elif n["t"] == "S" and n["comp"] == mem:
+                below = einsums(nodes[i + 1:])
+                has_split = any(x["t"] == "Q" for x in nodes[i + 1:])
+                for t in n["tensors"]:
+                    users = [e for e in below if t in uses[e]]
+                    if has_split and len(users) >= 2:
+                        proj = uses[users[0]][t]
+                        if isinstance(proj, list):
+                            size = 1
+                            for rv in proj:
+                                size *= tile.get(rv, w["ranks"][rv])
+                            out.append(size * bits.get(mem, {}).get(t, w["bits"]))
+            elif n["t"] == "Q":
+                for b in n["branches"]:
+                    walk(b, tile)
+    walk(tree, {})
+    return out
 
 
 def boundary(d, tree, usage, counters, viol):
